@@ -1,6 +1,8 @@
 package pass1
 
 import (
+	"sort"
+
 	"github.com/HobbyOSs/gosk/internal/ast"
 	"github.com/HobbyOSs/gosk/internal/client"
 	"github.com/HobbyOSs/gosk/pkg/asmdb"
@@ -102,30 +104,90 @@ func (p *Pass1) noteBranch(inst string, label string, target int64) (form int, s
 // GrowBranches は走査後のシンボルテーブルで各分岐の変位を確かめ、届かない分岐の形式を大きくします。
 // 1つでも大きくした場合は true を返します (呼び出し側は NextRelaxation で pass1 をやり直す)。
 // 形式は大きくなる一方なので、繰り返しは必ず止まります。
+//
+// ある分岐を大きくすると、それより後ろのアドレスがその分だけずれ、別の分岐が届かなくなることがあります
+// (連鎖)。連鎖の1段ごとに pass1 をやり直すと分岐の数だけ走査が必要になるので、ここでは「大きくした分だけ
+// 後ろがずれる」と仮定して、届かなくなる分岐がなくなるまでこの関数の中で形式を大きくします。
+// この仮定は ALIGNB などでずれが吸収される場合には大きめに見積もりますが、形式が必要以上に大きくなる
+// だけで誤りにはなりません (最終的なサイズとアドレスは次の pass1 の走査が決め、codegen が範囲を確かめる)。
 func (p *Pass1) GrowBranches() bool {
-	forms := make([]int, len(p.Branches))
-	grew := false
+	n := len(p.Branches)
+	forms := make([]int, n)
+	monotone := true // 分岐がアドレス順に並んでいる (途中で ORG が戻らない) 場合だけ、ずれを見積もる
 	for i, b := range p.Branches {
 		forms[i] = b.Form
+		if i > 0 && b.LOC < p.Branches[i-1].LOC {
+			monotone = false
+		}
+	}
+	// growth[i] = 分岐 i をこの走査より何バイト大きくしたか (Fenwick 木で前方和を取る)
+	tree := make([]int64, n+1)
+	add := func(i int, d int64) {
+		for i++; i <= n; i += i & -i {
+			tree[i] += d
+		}
+	}
+	prefix := func(k int) int64 { // growth[0..k-1] の和
+		var s int64
+		for ; k > 0; k -= k & -k {
+			s += tree[k]
+		}
+		return s
+	}
+	shiftAt := func(addr int64) int64 { // addr より前にある分岐の増分の合計
+		if !monotone {
+			return 0
+		}
+		k := sort.Search(n, func(i int) bool { return int64(p.Branches[i].LOC) >= addr })
+		return prefix(k)
+	}
+	check := func(i int) bool {
+		b := p.Branches[i]
 		target := b.Target
 		if b.Label != "" {
 			addr, defined := p.SymTable[b.Label]
 			if !defined {
-				continue // 未定義ラベルは pass2/codegen が報告する
+				return false // 未定義ラベルは pass2/codegen が報告する
 			}
-			target = int64(addr)
+			target = int64(addr) + shiftAt(int64(addr))
 		}
-		form := b.Form
-		for !branchFits(form, target-(int64(b.LOC)+int64(BranchSize(b.Inst, b.Mode, form)))) {
+		instAddr := int64(b.LOC)
+		if monotone {
+			instAddr += prefix(i)
+		}
+		form := forms[i]
+		for !branchFits(form, target-(instAddr+int64(BranchSize(b.Inst, b.Mode, form)))) {
 			next, ok := nextBranchForm(b.Mode, form)
 			if !ok {
 				break
 			}
 			form = next
 		}
-		if form != b.Form {
-			forms[i] = form
+		if form == forms[i] {
+			return false
+		}
+		add(i, int64(BranchSize(b.Inst, b.Mode, form)-BranchSize(b.Inst, b.Mode, forms[i])))
+		forms[i] = form
+		return true
+	}
+	grew := false
+	for changed := true; changed; {
+		changed = false
+		for i := 0; i < n; i++ { // 前向きの連鎖
+			if check(i) {
+				changed = true
+			}
+		}
+		for i := n - 1; i >= 0; i-- { // 後ろ向きの連鎖
+			if check(i) {
+				changed = true
+			}
+		}
+		if changed {
 			grew = true
+		}
+		if !monotone {
+			break
 		}
 	}
 	p.BranchForms = forms
